@@ -331,10 +331,13 @@ def _tensor_sig(m, ti):
     return ("var", t.name, tuple(t.shape), t.type, q)
 
 
-def _op_sig(m, op, with_names=True):
+def _op_sig(m, op, with_names=True, folded=None):
     """operator as a comparable value; operand wiring is compared up to tensor renumbering/renaming: constants by content,
-    variables by shape, type and quantisation"""
+    variables by shape, type and quantisation.  folded: {tensor index: constant signature} for operands the compiler may have
+    folded into constants (results of SHAPE operators)"""
     def ts(i):
+        if folded and i in folded:
+            return folded[i]
         s_ = _tensor_sig(m, i)
         if not with_names and s_[0] == "var":
             return ("var",) + s_[2:]
@@ -382,8 +385,20 @@ class C11(NetCheck):
         dup = desc["recipe"].get("dup_names", False)
         cpu_out = [o for o in om.ops if not (o.code == artefact.CUSTOM and o.custom == "ethos-u")]
         src_sigs = {}
+        # a SHAPE operator is folded into a constant at compile time: its consumers then take that constant as operand
+        import hashlib
+        import numpy as np
+
+        folded = {}
+        for o in src.ops:
+            if o.name == "SHAPE" and o.inputs and o.outputs:
+                t_in, t_out = src.tensors[o.inputs[0]], src.tensors[o.outputs[0]]
+                data = np.array(t_in.shape, dtype=np.int64 if t_out.type == "INT64" else np.int32).tobytes()
+                folded[o.outputs[0]] = ("const", tuple(t_out.shape), t_out.type, None, hashlib.sha256(data).hexdigest()[:16])
         for o in src.ops:
             src_sigs.setdefault(_op_sig(src, o, False), []).append(o)
+            if folded and any(i in folded for i in o.inputs):
+                src_sigs.setdefault(_op_sig(src, o, False, folded), []).append(o)
         used = set()
         for o in cpu_out:
             s = _op_sig(om, o, False)
@@ -447,5 +462,7 @@ class C11(NetCheck):
             if o is not None:
                 if o is op:
                     return True
+                if o.name == "SHAPE":
+                    continue  # its result depends on the (static) shape of its operand only: whatever computes the operand's VALUES does not contribute
                 stack.extend(i for i in o.inputs if i >= 0)
         return False
